@@ -16,6 +16,7 @@ pub fn dispatch(op: &str, f: &Fields) -> String {
         "wr" => wr(f),
         "structparse" => structparse(f),
         "rt" => rt(f),
+        "hist" => hist(f),
         _ => format!("harness-error unknown-op {}", op),
     }
 }
@@ -434,4 +435,152 @@ fn rt(f: &Fields) -> String {
     let ver = decfile(&v);
     let keep = num::<usize>(f, "keepfile", 0) != 0;
     format!("{} verify={}{}", d, ver.replace(' ', "/"), if keep { format!(" file={}", file) } else { String::new() })
+}
+
+/// operation histories on the reader front-ends (C06, C07).
+/// ops (separated by `;`): `r<n>` read n units, `f` fill_buf, `c<k>` consume k, `x` iterator next,
+/// `sS<t>` `sC<d>` `sE<d>` byte seeks, `ss<t>` sample seek.  One trace item per op.
+pub fn hist(f: &Fields) -> String {
+    use std::io::{BufRead, Seek, SeekFrom};
+    let data = unhex(get(f, "bytes"));
+    let splits = ints::<usize>(get(f, "split"));
+    let max = num::<usize>(f, "max", 0);
+    let src = SplitReader::new(data, splits, max);
+    let ops: Vec<&str> = get(f, "ops").split(';').filter(|s| !s.is_empty()).collect();
+    let be = get(f, "endian") == "be";
+    let mut tr: Vec<String> = Vec::new();
+    let arg = |o: &str, k: usize| -> i64 { o[k..].parse::<i64>().unwrap_or_else(|_| panic!("harness: bad op {}", o)) };
+    match get(f, "reader") {
+        "byte" => {
+            fn go<E: flac_codec::byteorder::Endianness>(src: SplitReader, e: E, ops: &[&str], tr: &mut Vec<String>) -> Result<(), String> {
+                let arg = |o: &str, k: usize| -> i64 { o[k..].parse::<i64>().unwrap() };
+                let _ = e;
+                let mut r = FlacByteReader::<_, E>::new_seekable(src).map_err(|e| format!("open:{}", errclass(&e)))?;
+                let mut avail = 0usize;
+                for o in ops {
+                    if o.starts_with('r') {
+                        let mut buf = vec![0u8; arg(o, 1) as usize];
+                        match r.read(&mut buf) {
+                            Ok(n) => tr.push(format!("r:{}", if n == 0 { "-".to_string() } else { hex(&buf[..n]) })),
+                            Err(e) => tr.push(format!("r:ERR:{}", ioclass(&e))),
+                        }
+                        avail = 0;
+                    } else if *o == "f" {
+                        match r.fill_buf() {
+                            Ok(b) => {
+                                avail = b.len();
+                                tr.push(format!("f:{}", if b.is_empty() { "-".to_string() } else { hex(b) }))
+                            }
+                            Err(e) => tr.push(format!("f:ERR:{}", ioclass(&e))),
+                        }
+                    } else if o.starts_with('c') {
+                        let k = (arg(o, 1) as usize).min(avail);
+                        r.consume(k);
+                        avail -= k;
+                        tr.push(format!("c:{}", k));
+                    } else if o.starts_with('s') {
+                        avail = 0;
+                        let pos = match &o[1..2] {
+                            "S" => SeekFrom::Start(arg(o, 2) as u64),
+                            "C" => SeekFrom::Current(arg(o, 2)),
+                            "E" => SeekFrom::End(arg(o, 2)),
+                            _ => panic!("harness: bad seek op"),
+                        };
+                        match r.seek(pos) {
+                            Ok(p) => tr.push(format!("s:ok:{}", p)),
+                            Err(e) => tr.push(format!("s:ERR:{}", ioclass(&e))),
+                        }
+                    }
+                }
+                Ok(())
+            }
+            let res = if be { go(src, BigEndian, &ops, &mut tr) } else { go(src, LittleEndian, &ops, &mut tr) };
+            if let Err(e) = res {
+                return format!("err {}", e);
+            }
+        }
+        "sample" => {
+            let mut r = match FlacSampleReader::new_seekable(src) {
+                Ok(r) => r,
+                Err(e) => return format!("err open:{}", errclass(&e)),
+            };
+            let mut avail = 0usize;
+            for o in &ops {
+                if o.starts_with('r') {
+                    let mut buf = vec![0i32; arg(o, 1) as usize];
+                    match r.read(&mut buf) {
+                        Ok(n) => tr.push(format!("r:{}", join(buf[..n].iter()))),
+                        Err(e) => tr.push(format!("r:ERR:{}", errclass(&e))),
+                    }
+                    avail = 0;
+                } else if *o == "f" {
+                    match r.fill_buf() {
+                        Ok(b) => {
+                            avail = b.len();
+                            tr.push(format!("f:{}", join(b.iter())))
+                        }
+                        Err(e) => tr.push(format!("f:ERR:{}", errclass(&e))),
+                    }
+                } else if o.starts_with('c') {
+                    let k = (arg(o, 1) as usize).min(avail);
+                    r.consume(k);
+                    avail -= k;
+                    tr.push(format!("c:{}", k));
+                } else if o.starts_with("ss") {
+                    avail = 0;
+                    match r.seek(arg(o, 2) as u64) {
+                        Ok(()) => tr.push("s:ok".to_string()),
+                        Err(e) => tr.push(format!("s:ERR:{}", errclass(&e))),
+                    }
+                }
+            }
+        }
+        "iter" => {
+            let r = match FlacSampleReader::new_seekable(src) {
+                Ok(r) => r,
+                Err(e) => return format!("err open:{}", errclass(&e)),
+            };
+            let mut it = r.into_iter();
+            for o in &ops {
+                if *o == "x" {
+                    match it.next() {
+                        Some(Ok(s)) => tr.push(format!("x:{}", s)),
+                        Some(Err(e)) => tr.push(format!("x:ERR:{}", errclass(&e))),
+                        None => tr.push("x:-".to_string()),
+                    }
+                }
+            }
+        }
+        "chan" => {
+            let mut r = match FlacChannelReader::new_seekable(src) {
+                Ok(r) => r,
+                Err(e) => return format!("err open:{}", errclass(&e)),
+            };
+            let mut avail = 0usize;
+            for o in &ops {
+                if *o == "f" {
+                    match r.fill_buf() {
+                        Ok(chs) => {
+                            avail = chs.first().map(|c| c.len()).unwrap_or(0);
+                            tr.push(format!("f:{}", chs.iter().map(|c| join(c.iter())).collect::<Vec<_>>().join("|")))
+                        }
+                        Err(e) => tr.push(format!("f:ERR:{}", errclass(&e))),
+                    }
+                } else if o.starts_with('c') {
+                    let k = (arg(o, 1) as usize).min(avail);
+                    r.consume(k);
+                    avail -= k;
+                    tr.push(format!("c:{}", k));
+                } else if o.starts_with("ss") {
+                    avail = 0;
+                    match r.seek(arg(o, 2) as u64) {
+                        Ok(()) => tr.push("s:ok".to_string()),
+                        Err(e) => tr.push(format!("s:ERR:{}", errclass(&e))),
+                    }
+                }
+            }
+        }
+        other => return format!("harness-error bad-reader {}", other),
+    }
+    format!("ok trace={}", if tr.is_empty() { "-".to_string() } else { tr.join(";") })
 }
